@@ -132,18 +132,25 @@ theorem syn_ofVisit (v : FromValue.R) (r : Bytes) (p : Nat) : Syn (ofVisit v r p
   · exact syn_ok
   · exact syn_raw
 
-theorem syn_scanExp (neg : Bool) (int : Bytes) (frac : Option Bytes) (rest : Bytes) (pos : Nat) :
-    Syn (scanExp env neg int frac rest pos) := by
-  unfold scanExp
+theorem syn_scanExpDigits (neg : Bool) (int : Bytes) (frac : Option Bytes) (en : Bool) (rest : Bytes) (pos : Nat) :
+    Syn (scanExpDigits env neg int frac en rest pos) := by
+  unfold scanExpDigits
   split
   · exact syn_atEof hf
   · dsimp only
     repeat' split
     all_goals first
-      | exact syn_atEof hf
       | exact syn_err rfl
       | exact syn_io
       | exact syn_ok
+
+theorem syn_scanExp (neg : Bool) (int : Bytes) (frac : Option Bytes) (rest : Bytes) (pos : Nat) :
+    Syn (scanExp env neg int frac rest pos) := by
+  unfold scanExp
+  split
+  · exact syn_atEof hf
+  · repeat' split
+    all_goals exact syn_scanExpDigits hf _ _ _ _ _ _
 
 theorem syn_scanAfterInt (neg : Bool) (int : Bytes) (rest : Bytes) (pos : Nat) :
     Syn (scanAfterInt env neg int rest pos) := by
